@@ -15,6 +15,10 @@ vars == <<l, g, bad, cnt>>
 
 ZeroCfg == [min |-> 0, max |-> 0, wm |-> 0, fb |-> FALSE, uc |-> 0, ums |-> 0, rr |-> FALSE, nopool |-> FALSE]
 
+\* violations are collected up to a cap, but the first violation of every clause is always kept: a flood of violations of one
+\* clause (another property's) must not hide the only violation of another
+KeepBad(b, v) == Len(b) < 300 \/ \E c \in v : \A i \in DOMAIN b : c \notin b[i].ids
+
 TInit == /\ l = 1
          /\ g = GhostInit(ZeroCfg)
          /\ bad = <<>>
@@ -31,14 +35,14 @@ Step ==
               v == IF isRR THEN (IF ~StressRROK(ev) THEN {"C09_s"} ELSE {})
                    ELSE (IF ~StressOK(ev) THEN {"C03_s"} ELSE {}) \cup (IF ~StressLeakOK(ev) THEN {"C02_s"} ELSE {}) \cup (IF ~StressCntOK(ev) THEN {"C04_s"} ELSE {})
           IN /\ g' = g
-             /\ bad' = IF v # {} /\ Len(bad) < 300 THEN Append(bad, [l |-> l, sid |-> ev.sid, i |-> ev.i, ids |-> v, tags |-> {}]) ELSE bad
+             /\ bad' = IF v # {} /\ KeepBad(bad, v) THEN Append(bad, [l |-> l, sid |-> ev.sid, i |-> ev.i, ids |-> v, tags |-> {}]) ELSE bad
              /\ cnt' = IF isRR THEN [cnt EXCEPT !["C09_s"] = @ + 1] ELSE [cnt EXCEPT !["C03_s"] = @ + 1, !["C02_s"] = @ + 1, !["C04_s"] = @ + 1]
      ELSE \E g2 \in {GhostNext(g, ev)} :        \* bound once: TLC re-evaluates LET definitions at every use
           \E x \in {Exercised(g, ev, g2)} :
             LET v == {c.id : c \in {y \in x : ~y.ok}}
                 xi == {c.id : c \in x}
             IN /\ g' = g2
-               /\ bad' = IF v # {} /\ Len(bad) < 300 THEN Append(bad, [l |-> l, sid |-> ev.sid, i |-> ev.i, ids |-> v, tags |-> Tags(g2)]) ELSE bad
+               /\ bad' = IF v # {} /\ KeepBad(bad, v) THEN Append(bad, [l |-> l, sid |-> ev.sid, i |-> ev.i, ids |-> v, tags |-> Tags(g2)]) ELSE bad
                /\ cnt' = [c \in ClauseIds |-> IF c \in xi THEN cnt[c] + 1 ELSE cnt[c]]
   /\ l' = l + 1
 
